@@ -17,6 +17,7 @@ import (
 	"fmt"
 	"hash/fnv"
 	"math"
+	"runtime"
 	"sort"
 	"strconv"
 	"strings"
